@@ -10,10 +10,14 @@ MERGE = SW + "::merge"
 STABLE_SORT = "alloc::slice::<impl [T]>::sort_by_key"
 
 
+CFG = {"fn": None, "group": SW, "radials": "radials", "label": "elevation_number", "elem_label": "elevation_number",
+       "payload_ty": "nexrad_model::data::radial::Radial"}
+
+
 def sweep_inner(x):
     """radials contained in an emitted Sweep value"""
-    if x[0] == "adt" and x[1] == SW:
-        return listalg.seq(fld(x, "radials"))
+    if x[0] == "adt" and x[1] == CFG["group"]:
+        return listalg.seq(fld(x, CFG["radials"]))
     return None
 
 
@@ -28,6 +32,7 @@ def is_none_cond(c, L):
 def run(chk, tier):
     prog, info = common.program("all")
     common.note_extraction(chk, info, prog)
+    common.vacuity(chk, ['R-LIN'])
     chk.explanation = ("Conservation is proved as an induction over the grouping loop, decided from the loop's value-numbered summary with a list algebra "
                        "(Vec::new = [], push = append): content(state) = flatten(sweeps) ++ pending. Obligations: content is [] at entry; every way round "
                        "the loop consumes exactly one radial r from the iterator and gives content' = content ++ [r]; the invariants 'no label => pending empty' "
@@ -39,7 +44,21 @@ def run(chk, tier):
     merge(chk, prog)
 
 
-def from_radials(chk, prog):
+def from_radials(chk, prog, cfg=None):
+    """the grouping-loop induction; `cfg` lets the vacuity guard run it on the witness crate's look-alikes"""
+    global CFG
+    saved = dict(CFG)
+    if cfg:
+        CFG.update(cfg)
+    try:
+        _from_radials(chk, prog, CFG.get("fn") or FR)
+    finally:
+        CFG.clear()
+        CFG.update(saved)
+
+
+def _from_radials(chk, prog, FR):
+    SW = CFG["group"]
     fn = prog.fn(FR)
     if fn is None:
         chk.blind("R-LIN", FR, "function not found")
@@ -61,7 +80,7 @@ def from_radials(chk, prog):
         ty = fn.local_ty(l)
         if ty.startswith("alloc::vec::Vec<%s" % SW):
             role["S"] = l
-        elif ty.startswith("alloc::vec::Vec<nexrad_model::data::radial::Radial"):
+        elif ty.startswith("alloc::vec::Vec<" + CFG["payload_ty"]):
             role["R"] = l
         elif ty.startswith("core::option::Option<u8>"):
             role["N"] = l
@@ -93,7 +112,7 @@ def from_radials(chk, prog):
         if not okc:
             continue
         r = ("vfld", call, "Some", "0")
-        er = fld(r, "elevation_number")
+        er = fld(r, CFG["elem_label"])
         base = [("flat", S)] + listalg.seq(R)
         for c2, v in loops.split_cases(val):
             n_cases += 1
@@ -129,7 +148,7 @@ def from_radials(chk, prog):
             # (4) emissions
             if s2 is not None and s2 != [("atom", S)]:
                 em = [x for k, x in s2 if k == "elem"]
-                okk = len(em) == 1 and s2[0] == ("atom", S) and em[0][0] == "adt" and fld(em[0], "elevation_number") == label and fld(em[0], "radials") == R and was_some and differ
+                okk = len(em) == 1 and s2[0] == ("atom", S) and em[0][0] == "adt" and fld(em[0], CFG["label"]) == label and fld(em[0], CFG["radials"]) == R and was_some and differ
                 chk.ob("R-LIN", FR, okk, "a sweep is emitted only as (label, pending run) when a label exists and differs from elevation(r)", where, key=tag + ":emit")
     chk.floor("iteration cases", n_cases, 3)
     # (5) the value returned at the normal exit
@@ -150,7 +169,7 @@ def from_radials(chk, prog):
                where, key="exit:%s" % ("no-run" if none else "pending-run"))
         if not none and okk:
             em = [x for k, x in res if k == "elem"]
-            chk.ob("R-LIN", FR, len(em) == 1 and fld(em[0], "elevation_number") == ("vfld", N, "Some", "0"), "the final sweep carries the pending label", where, key="exit:label")
+            chk.ob("R-LIN", FR, len(em) == 1 and fld(em[0], CFG["label"]) == ("vfld", N, "Some", "0"), "the final sweep carries the pending label", where, key="exit:label")
 
 
 def merge(chk, prog):
